@@ -119,6 +119,15 @@ def explore_c03(rng, tier, res, deep=False):
             qs.append(f"$[?match(@, {q}{body}{q})]")
     for nm in NONASCII_NAMES:
         qs += [f"$.{nm}", f"$..{nm}", f"$[?@.{nm}]", f"$.{nm}.{nm}[?$.{nm}=={'1'}]"]
+    # match()/search() with a string LITERAL as pattern: any string literal is a valid argument (whether it is a valid
+    # I-Regexp only matters at evaluation, where an invalid one gives false) — patterns that regular-expression
+    # engines reject or treat specially included
+    pats = ["a{2,1}", "[z-a]", "[b-a]+", "(", ")", "[", "]", "a]", "}", "{", "*", "+", "?", "a**", "\\", "\\p{Xx}", "\\p{Lu", "[^]", "[]", "(?i)a", "(?P<n>a)", "a{1,2}{3}",
+            "\\d", "\\w+", "^a$", "a|", "|", "x{99999999999}", "[\\p{L}-z]", ".", ".*", "", "(a", "a)", "[a", "\\1", "(a)\\1", "a{,2}", "a{2,}", "[a-]", "[-a]", "é{2}", "😀+"]
+    for pt in pats:
+        for qq in ("'", '"'):
+            lit = qq + pt + qq
+            qs += [f"$[?match(@.a, {lit})]", f"$[?search(@, {lit})]", f"$[?!match({lit}, {lit})]", f"$[?search(@.a, {lit}) || match(@.b, {lit})]"]
     compile_cases(res, FULL_ENV, qs, "C03", want="valid")
 
 
@@ -203,6 +212,15 @@ def explore_c04(rng, tier, res, deep=False):
               "$[?length(@.a)]", "$[?match(@.a,'b')==true]", "$[?nope(@.a)]", "$[9007199254740992]", "$[-9007199254740992]",
               "$[1:9007199254740992]", "$[::-9007199254740992]"]
     qs.update(listed)
+    # a logical operator whose operands are LITERALS (equal, Python-equal or different), wherever an expression can stand:
+    # a bare literal is not a basic-expr, so none of these is a logical-expr, whatever could be "simplified"
+    lits4 = ["1", "true", "1.0", "null", "'x'", "false", "0", "2"]
+    for a in lits4:
+        for b in (a, "1", "true", "null"):
+            for opx in ("&&", "||"):
+                qs.update([f"$[?length({a} {opx} {b}) == 1]", f"$[?search(@.a, {a} {opx} {b})]", f"$[?match({a} {opx} {b}, 'x')]", f"$[?{a} {opx} {b}]", f"$[?({a} {opx} {b})]",
+                           f"$[?!({a} {opx} {b})]", f"$[?@.a && {a} {opx} {b}]", f"$[?count({a} {opx} {b}) == 1]", f"$[?@.a == ({a} {opx} {b})]", f"$[?value({a} {opx} {b}) == 1]",
+                           f"$[?length(({a} {opx} {b})) == 1]", f"$[?{a} {opx} {b} == 1]"])
     # malformed numbers in every numeric position: digits outside %x30-39 (Unicode decimal digits, superscripts, Roman
     # numerals), signs, separators, hexadecimal and other base prefixes, doubled points and exponents, infinities
     D = ["\u0665", "\u0661", "\uff11", "\U0001d7cf", "\u0967", "\u00b2", "\u2160", "\u0e51", "\u1041"]
@@ -356,6 +374,18 @@ def explore_c05(rng, tier, res, deep=False):
         for _ in range(per):
             qs.append("$[?" + g.logical_or(1) + "]" if rng.random() < 0.7 else g.query())
         compile_cases(res, desc, qs, "C05")
+    # arguments that are logical expressions in shape — negations, double negations, parentheses around a query or a
+    # call — in ValueType / NodesType / LogicalType parameter positions of the built-ins and of probe functions:
+    # `!(!q)` and `(q)` are LogicalType whatever they could be rewritten to
+    descp = dict(real.DEFAULT_ENVDESC)
+    descp["fns"] = gen.PROBE_FNS
+    shapes = ["!(!@.a)", "!(!@.*)", "(@.a)", "((@.a))", "!@.a", "!(!(!@.a))", "!(!nf(@.*))", "(nf(@.*))", "!(!$[0].a)", "(length(@.a))", "!(!length(@.a))", "!(!vf(@.a))",
+              "(@.a == 1)", "!(!(@.a == 1))", "(1)", "!(!1)", "(!(!@.a))", "@.a && @.a", "(@.a) || (@.a)"]
+    qs = []
+    for sh in shapes:
+        qs += [f"$[?count({sh}) > 1]", f"$[?length({sh}) == 1]", f"$[?match({sh}, 'x')]", f"$[?search(@.a, {sh})]", f"$[?value({sh}) == 1]", f"$[?vf({sh}) == 1]", f"$[?nf({sh})]",
+               f"$[?lf({sh})]", f"$[?lnv({sh}, {sh}) == 7]", f"$[?vvl({sh}, 1)]", f"$[?count(nf({sh})) == 1]", f"$[?lnv(@.a, {sh}) == 7]", f"$[?{sh}]", f"$[?{sh} == 1]", f"$[?lf(length({sh}) == 1)]"]
+    compile_cases(res, descp, qs, "C05")
     # configured bounds that are zero, one-sided, tiny, or exclude zero (a bound of 0 is a bound, not "unset"), with
     # every integer position of a query at bound-1 / bound / bound+1 and at 0, +-1
     big = 2**53 - 1
@@ -469,7 +499,9 @@ def explore_c13(rng, tier, res, deep=False):
     # components, comparison operand, function argument, nested in filters and under descendant segments, with blanks
     numforms = ["1e2", "1E+2", "1e+1", "2e0", "1e-2", "-1e1", "1.0", "1.5", "-0", "-0.0", "01", "-01", "1e", "1e+", "1.", ".5", "--1", "+1", "1_0",
                 "0x10", "\u0661", "1\u0662", "1e2e3", "1e\u0663", "1.e2", "1e2.5", "9" * 30, "-" + "9" * 30, "1e" + "9" * 6, "1e400", "0e0", "-",
-                "1e 2", "1 e2", "0b1", "1j", "1L", "١٢", "1E2", "1e02", "1e-0"]
+                "1e 2", "1 e2", "0b1", "1j", "1L", "١٢", "1E2", "1e02", "1e-0",
+                "1.5e400", "-1.0e999", "1.7976931348623159e308", "1.7976931348623157e308", "1e-400", "0.1e400", "-0.0e999", "5e-324", "2.5e-324", "9" * 310 + ".5", "9" * 310 + "e-1",
+                "1.0e+400", "123456789012345678901234567890.0", "0.1e-9999999"]
     numplaces = ["$[{}]", "$[{}:]", "$[:{}]", "$[::{}]", "$[{}:2]", "$[0:{}]", "$[1:{}:2]", "$[ {} : 2 ]", "$[\n:\n{}\n]", "$..[{}:]", "$..[{}]", "$[0, {}:]", "$[{}, 0]",
                  "$[?@[{}:]]", "$[?@[{}]]", "$[?@[:{}] ]", "$[?count(@[:{}]) > 1]", "$[?@.a == {}]", "$[?{} < @.a]", "$[?@[{}] == 1]", "$[?length(@) > {}]",
                  "$[?length({}) == 1]", "$[?@[?@[::{}]]]", "$.a[{}:{}]", "$[{}:{}:{}]", "$[?@.a == -{}]", "$[?{}]"]
@@ -637,6 +669,11 @@ def explore_c19(rng, tier, res, deep=False):
     fixed += ["$[?(@.a, @.b)]", "$[?(@.a ! @.b)]", "$[?(1 2 3)]", "$[?(@.a == 1 2 3)]", "$[?count((@.a, @.b)) == 1]", "$[?(@.a,\n@.b)]", "$[?(\r\n@.a ! @.b\r\n)]",
               "$[?(@.a @.b)]", "$[?(@.a == 1, 2)]", "$[?((@.a) (@.b))]", "$[?(@.a : @.b)]", "$[?(@.a * @.b)]", "$[?(@.a ? @.b)]", "$[?(@.a $ @.b)]", "$[?(@ @ @)]",
               "$[?length((1, 2)) == 1]", "$[?(1 , 2 , 3)]", "$[?(true false null)]", "$[?('a' 'b' 'c')]", "$[?(@.a ] @.b)]", "$[?(@.a 'x' @.b)]"]
+    for body in ("a\nb", "\n", "a\r\nb", "x\n\ny", "a\rb"):
+        for style in "'\"":
+            lit = style + body + style
+            fixed += [f"$[{lit}] x", f"$[{lit}][?@.a = 1]", f"$[{lit}]['\\q']", f"$[{lit}", f"$[{lit}]\n[?@.a ~ 1]", f"$[?@.a == {lit} x]", f"$[?@.a == {lit}]]", f"$[{lit}, {lit}] y",
+                      f"$.a[{lit}]\n.b c", f"$[?match(@.a, {lit}) &]"]
     qs = fixed + sorted(qs - set(fixed))
     # the same literal / name / number texts compiled before at OTHER offsets (valid queries, long prefixes, other
     # lines), then rejected queries in which those texts sit where they are not allowed: a position reported for an
@@ -808,6 +845,17 @@ def explore_c12(rng, tier, res, deep=False):
             qs.append("$[?" + g1.logical_or(1, budget=4) + "]")
         else:
             qs.append(g1.query())
+    for depth in range(1, 8):
+        neg = "@.a"
+        for _ in range(depth):
+            neg = "!(" + neg + ")" if neg != "@.a" else "!@.a"
+        qs += [f"$[?{neg}]", f"$[?{neg} && @.b]", f"$[?lf({neg})]", f"$[?@.b || {neg}]", f"$[?({neg})]", f"$..[?{neg}][?{neg}]", f"$[?@[?{neg}]]"]
+        cmpn = "@.a == 1"
+        for _ in range(depth):
+            cmpn = "!(" + cmpn + ")"
+        qs += [f"$[?{cmpn}]", f"$[?{cmpn} || {neg}]"]
+    qs += ["$[?@.a && @.a]", "$[?@.a || @.a]", "$[?(@.a) && ((@.a))]", "$[?1 == 1 && 1 == 1]", "$[?@.a == @.a]", "$[?!(!(@.a && @.a))]", "$[?@.a && @.b && @.a]",
+           "$[-1,0,1]", "$[2,3,4]", "$[0,0]", "$['a','a']", "$[1:2]", "$[-1:0]", "$[0:1:1]", "$[?@.a < 1.0]", "$[?@.a == 2.0]", "$[?@.a == 250e-1]", "$[?@.a == 1e0]"]
     qs += ["$[?!(@.a == 1)]", "$[?!(@.a && @.b)]", "$[?(@.a || @.b) && @.c]", "$[?@.a || @.b && @.c]", "$[?!(!@.a)]",
            "$[?lf(!(@.a==1))]", "$[?lf((@.a || @.b) && @.c)]", "$[?((@.a))]", "$[?(@.a && (@.b || (@.c && @.d)))]",
            "$[?!(@.a || @.b) || !(@.c && @.d)]", "$[1:]", "$[:2]", "$[::]", "$[::-1]", "$[?@.a==-0.0]", "$[?@.a==-0]",
@@ -947,6 +995,11 @@ def literal_pool(rng, tier):
         hi = rng.randint(0xD800, 0xDBFF)
         lo = rng.randint(0xDC00, 0xDFFF)
         bodies.append("\\u%04x\\u%04x" % (hi, lo))
+    # every raw control character (and DEL, NEL, LS, PS) at the start, in the middle and at the END of otherwise plain text
+    # (a trailing LF is where `$`-anchored patterns and line-oriented string methods go wrong), alone and doubled
+    for cp in list(range(0, 0x20)) + [0x7F, 0x85, 0x2028, 0x2029]:
+        c = chr(cp)
+        bodies += ["ab" + c, c + "ab", "a" + c + "b", "ab" + c + c, "\u00e9" + c, "a b" + c, "a" + c]
     # sequences
     for _ in range(3000 if tier == "thorough" else 200):
         bodies.append("".join(rng.choice(bodies[:200] + ["a", "'", '"', "\\\\"]) for _ in range(rng.randint(2, 5))))
@@ -1063,12 +1116,26 @@ def explore_c08(rng, tier, res, deep=False):
         names = rng.sample(names_all, min(len(names_all), 6))
         doc = gen.gen_container(rng, depth=3, names=names)
         queries = ["$..*", "$.*", "$[-1]", "$[::-1]", "$[-2:]", "$..[-1]", "$..[::-2]", "$[?@]", "$..[?@]", walk_query(rng, doc, g)]
+        # slices whose explicit bounds lie beyond either end, both directions: the location is the element's own index
+        queries += [["$[99::-1]", "$..[7::-2]", "$[3::-1]", "$[2:0:-1]"][it % 4], ["$[-99::1]", "$[:99]", "$..[5:-99:-1]", "$..[-99:99:2]"][(it // 4) % 4]]
+        far = queries[-2:]
+        if it % 7 == 5:
+            # member names that read as integers next to array indices with the same digits, index selectors with those
+            # digits compiled on the same environment just before: a name is a name
+            arr = [doc, 1, [2]]
+            doc = {"1": arr, "0": {"1": 1, "-1": [0, 1]}, "-1": "x", "01": 1, "1.0": 2, "k": [{"0": 0}, {"1": 1}]}
+            for warm in ("$.k[1]", "$..[0]", "$['0'][-1]", "$[1]", "$..[-1]"):
+                try:
+                    env_det.find(warm, doc)
+                except jp.JSONPathError:
+                    pass
+            queries = ["$..*", "$['1']", "$['0']['1']", "$['-1']", "$.*", "$..['1']", "$..[1]", "$['0']['-1'][1]", "$['1'][1]"]
         env = env_nd if it % 3 == 2 else env_det
         if it % 3 == 2:
             # scalars in front of containers, containers between scalars: positions are positions in the array itself
             doc = rng.choice([[1, doc], [None, "s", doc, 2, [3, {"a": [0, [4]]}]], {"k": [True, doc, 0, {"a": 1}]}])
             queries = ["$..*", "$..[0]", "$..[-1]", "$..a", "$..[?@]", "$..[::-1]", "$..*..*", "$.*..*"]
-        for q in rng.sample(queries, 4):
+        for q in rng.sample(queries, 4) + (far if it % 3 != 2 and it % 7 != 5 else []):
             res.evaluations += 1
             try:
                 nodes = env.find(q, doc)
